@@ -79,17 +79,20 @@ CLAIMED = {
          'parity from every generated control block. Curve facts enter as explicit hypotheses (lift_x of the key, tweak < n). The tagged-hash '
          'leaves (utils.tagged_hash, tapleaf_tagged_hash, tapbranch_tagged_hash incl. the lexicographic ordering of the children) are re-translated on '
          'every run and proved equal to the Spec hashes, and tweak_taproot_pubkey (internal key + tweak -> output key and parity) is translated and proved equal to the model (tier T); '
-         'tree walk, control block and calculate_tweak are a hand model tied to the code by the correspondence run.', NOTE_COMMON + 'SHA-256 parameter; lift_x(internal key) and tweak < n are hypotheses of the curve-dependent theorems.',
-         'Lean 4 proof (hand model; tagged-hash leaves and key tweak over translated source) + differential correspondence', '6/C08'),
+         'get_tag_hashed_merkle_root and calculate_tweak are translated and proved equal to the model (hence the BIP341 root); the merkle *path* (_generate_merkle_path with its '
+         'nonlocal counter) and ControlBlock are a hand model tied to the code by the correspondence run.', NOTE_COMMON + 'SHA-256 parameter; lift_x(internal key) and tweak < n are hypotheses of the curve-dependent theorems.',
+         'Lean 4 proof (merkle root, tweak and tagged hashes over translated source; merkle path hand model) + differential correspondence', '6/C08'),
  'C07': ('Kernel-checked theorems (the secp256k1 group-law facts CurveLaws are themselves proved: primes by Pratt certificates, Mathlib Weierstrass group law, n*G = 0 by kernel evaluation): for every secret in [1,n-1], every tweak and both parities of '
          'the internal and of the tweaked key, the secret derived by tweak_taproot_privkey is the discrete log of the point whose x coordinate the '
          'address commits to; a key-path signature verifies (BIP340) under exactly that output key, a script-path signature under the x-only '
          'internal key; 64/65-byte length rule. Tier T: full_pubkey_gen, negate_privkey, tweak_taproot_privkey and tweak_taproot_pubkey are re-translated on '
          'every run (curve arithmetic of schnorr.py, 64-digit hex formatting) and proved equal to the models, so "the derived secret is the discrete log of the committed '
-         'key" is a theorem about the translated code (no curve hypothesis); calculate_tweak, the tree walk and _sign_taproot_input itself are a hand model tied to the code '
-         'by the correspondence run, in which every implementation signature is also verified by the Spec verifier under the Spec BIP341 digest.',
+         'key" is a theorem about the translated code (no curve hypothesis); so are get_tag_hashed_merkle_root (recursion under a depth bound proved never exhausted), '
+         'calculate_tweak and PrivateKey._sign_taproot_input itself (key objects as their bytes), hence "the key-path signature verifies under the output key" holds of the '
+         'translated signer. PrivateKey / PublicKey object plumbing and sign_taproot_input (digest + signer) are tied by the correspondence run, in which every '
+         'implementation signature is also verified by the Spec verifier under the Spec BIP341 digest.',
          NOTE_COMMON + 'SHA-256 parameter. CurveLaws is discharged (no curve hypothesis in the _unconditional theorems).',
-         'Lean 4 proof (hand model; key tweaks over translated source; curve group law proved via Mathlib) + differential correspondence', '6/C07'),
+         'Lean 4 proof over translated source (signer, tweaks, tree; curve group law proved via Mathlib) + differential correspondence', '6/C07'),
  'C20': ('Kernel-checked theorems: generated RIPEMD-160 tables and curve constants equal the specification\'s; the hand model of ripemd160.py '
          'equals Merkle-Damgard padding + fold of the specification\'s compression function for messages of every length; tagged hash definition; '
          'schnorr_verify equals BIP340 verification on all inputs (length, range and off-curve rejection), schnorr_sign returns exactly the BIP340 '
